@@ -40,6 +40,9 @@ def main(argv=None):
     if a.replay:
         return mod.replay(a.replay) if hasattr(mod, "replay") else generic_replay(a.replay)
     obs = mod.build(a.tier, seed)
+    if not getattr(mod, "NO_FRAMES", False):
+        from . import vprop
+        obs.append(vprop.frames_ob(prop))
     obs = [o for o in obs if (a.tier == "thorough" or o.tier == "quick")]
     if a.only:
         obs = [o for o in obs if a.only in o.id]
